@@ -266,6 +266,9 @@ def main(chk):
   c06.design(chk, cfgs, 5)
   # A
   c06.emit_and_replay(chk, cfgs, 3 if chk.tier == 'quick' else 4, 1, OWNED_A)
+  # longer histories of the live view alone: reads interleaved with (overriding) per-coordinate sets
+  deep = [measlib.cfg('', 'none', 'A', dt, {'SetD', 'Read'}) for dt in ('none', 'inc')]
+  c06.emit_and_replay(chk, deep, 4 if chk.tier == 'quick' else 5, 1, OWNED_A)
   # B
   with mp.Pool(14, maxtasksperchild=40) as pool:
     for name, plist in fams_b(chk.tier):
